@@ -293,7 +293,12 @@ def rule_ch1_start(prog):
                      "the coordinate list is seeded from WaitingState.coord after handle_chord may have overwritten it with the "
                      "released key's coordinate: the first pressed key no longer holds the chord's action")
     if n == 0:
-        res.viol("anchors", f.loc, "no coordinate list seeded from WaitingState.coord found in handle_chord")
+        res.inst("first-coordinate", where=f.loc, read_before_overwrite=False, stores=len(stores))
+        res.oblige(False)
+        res.viol("first-coordinate/missing", f.loc,
+                 "handle_chord no longer puts WaitingState.coord (the key that opened the chord) into the list of coordinates that "
+                 "receive the chord's action: when the chord is resolved by releasing another key, nothing is bound to the key that is "
+                 "still held and the chord's output is released a few ms after it was pressed")
     return res
 
 
